@@ -36,8 +36,8 @@ namespace MEDDLY {
 
 class MEDDLY::reachset_frontier : public binary_operation {
     public:
-        reachset_frontier(binary_operation* image, binary_operation* acc,
-                binary_operation* diff);
+        reachset_frontier(forest* arg1, binary_operation* image,
+                binary_operation* acc, binary_operation* diff);
 
 
         virtual void compute(int L, unsigned in,
@@ -54,10 +54,10 @@ class MEDDLY::reachset_frontier : public binary_operation {
 
 // ************************************************************************
 
-MEDDLY::reachset_frontier::reachset_frontier(binary_operation* image,
-        binary_operation* acc, binary_operation* diff)
+MEDDLY::reachset_frontier::reachset_frontier(forest* arg1,
+        binary_operation* image, binary_operation* acc, binary_operation* diff)
 
-    : binary_operation(image->getOp1F(), image->getOp2F(), image->getResF()),
+    : binary_operation(arg1, image->getOp2F(), image->getResF()),
       imageOp(image), accumulateOp(acc), differenceOp(diff)
 {
     checkDomains(__FILE__, __LINE__);
@@ -161,7 +161,8 @@ void MEDDLY::reachset_frontier::compute(int L, unsigned in,
 
 class MEDDLY::reachset_no_frontier : public binary_operation {
     public:
-        reachset_no_frontier(binary_operation* image, binary_operation* acc);
+        reachset_no_frontier(forest* arg1, binary_operation* image,
+                binary_operation* acc);
 
 
         virtual void compute(int L, unsigned in,
@@ -177,10 +178,10 @@ class MEDDLY::reachset_no_frontier : public binary_operation {
 
 // ************************************************************************
 
-MEDDLY::reachset_no_frontier::reachset_no_frontier(binary_operation* image,
-        binary_operation* acc)
+MEDDLY::reachset_no_frontier::reachset_no_frontier(forest* arg1,
+        binary_operation* image, binary_operation* acc)
 
-    : binary_operation(image->getOp1F(), image->getOp2F(), image->getResF()),
+    : binary_operation(arg1, image->getOp2F(), image->getResF()),
       imageOp(image), accumulateOp(acc)
 {
     checkDomains(__FILE__, __LINE__);
@@ -304,13 +305,13 @@ MEDDLY::reachset_tradf_factory <FWD>::build_new(forest* a, forest* b, forest* c)
 
         switch (c->getRangeType()) {
             case range_type::BOOLEAN:
-                imageOp = FWD ? MEDDLY::build(POST_IMAGE, a, b, c)
-                              : MEDDLY::build(PRE_IMAGE,  a, b, c);
+                imageOp = FWD ? MEDDLY::build(POST_IMAGE, c, b, c)
+                              : MEDDLY::build(PRE_IMAGE,  c, b, c);
 
                 unionOp = MEDDLY::build(UNION, c, c, c);
                 diffrOp = MEDDLY::build(DIFFERENCE, c, c, c);
                 if (!imageOp || !unionOp || !diffrOp) return nullptr;
-                return new reachset_frontier(imageOp, unionOp, diffrOp);
+                return new reachset_frontier(a, imageOp, unionOp, diffrOp);
 
             default:
                 return nullptr;
@@ -361,20 +362,20 @@ MEDDLY::reachset_tradnof_factory <FWD>::build_new(forest* a, forest* b, forest* 
 
         switch (c->getRangeType()) {
             case range_type::BOOLEAN:
-                imageOp = FWD ? MEDDLY::build(POST_IMAGE, a, b, c)
-                              : MEDDLY::build(PRE_IMAGE,  a, b, c);
+                imageOp = FWD ? MEDDLY::build(POST_IMAGE, c, b, c)
+                              : MEDDLY::build(PRE_IMAGE,  c, b, c);
 
                 unionOp = MEDDLY::build(UNION, c, c, c);
                 if (!imageOp || !unionOp) return nullptr;
-                return new reachset_no_frontier(imageOp, unionOp);
+                return new reachset_no_frontier(a, imageOp, unionOp);
 
             case range_type::INTEGER:
-                imageOp = FWD ? MEDDLY::build(POST_IMAGE, a, b, c)
-                              : MEDDLY::build(PRE_IMAGE,  a, b, c);
+                imageOp = FWD ? MEDDLY::build(POST_IMAGE, c, b, c)
+                              : MEDDLY::build(PRE_IMAGE,  c, b, c);
 
                 unionOp = MEDDLY::build(DIST_MIN, c, c, c);
                 if (!imageOp || !unionOp) return nullptr;
-                return new reachset_no_frontier(imageOp, unionOp);
+                return new reachset_no_frontier(a, imageOp, unionOp);
 
             default:
                 return nullptr;
@@ -383,12 +384,12 @@ MEDDLY::reachset_tradnof_factory <FWD>::build_new(forest* a, forest* b, forest* 
 
     if (c->getEdgeLabeling() == edge_labeling::EVPLUS) {
         if (c->getRangeType() == range_type::INTEGER) {
-            imageOp = FWD ? MEDDLY::build(POST_IMAGE, a, b, c)
-                          : MEDDLY::build(PRE_IMAGE,  a, b, c);
+            imageOp = FWD ? MEDDLY::build(POST_IMAGE, c, b, c)
+                          : MEDDLY::build(PRE_IMAGE,  c, b, c);
 
             unionOp = MEDDLY::build(MINIMUM, c, c, c);
             if (!imageOp || !unionOp) return nullptr;
-            return new reachset_no_frontier(imageOp, unionOp);
+            return new reachset_no_frontier(a, imageOp, unionOp);
         }
     }
 
